@@ -161,7 +161,8 @@ class Sensor(ABC):
             estimate_eci,
             self.host.datetime_epoch,
         )
-        if self.canSlew(pointing_sez):
+        missed_slew = not self.canSlew(pointing_sez)
+        if not missed_slew:
             # If the sensor can slew to the target, then it does before attempting observations
             self.boresight = pointing_sez[:3] / norm(pointing_sez[:3])
             self.time_last_tasked = self.host.time
@@ -186,7 +187,8 @@ class Sensor(ABC):
             )
 
         # If doing Serendipitous Observations
-        if self.calculate_background:
+        # [NOTE]: The field of view is centered on the commanded pointing, so this only applies if the sensor got there.
+        if self.calculate_background and not missed_slew:
             visible_observations = [
                 observation
                 for tgt in background_agents
